@@ -305,6 +305,13 @@ def c11_cases():
     C["double_call_in_method_root"] = ({"items": [base_m(), M("A", [call("M0"), call("M0")], iw=0, ow=0), T("T0", [wit("comb")])]}, "reject", "double call")
     C["double_call_nested_if_else_then_again"] = ({"items": [base_m(), T("T0", [If([call("M0")], els=[call("M0")]), call("M0", en=True)])]}, "reject", "double call")
     C["double_call_via_nonexclusive_with_exclusive_tree"] = ({"items": [base_m(), M("N", [call("M0")], iw=0, ow=0, nonexclusive=True), T("T0", [call("N"), call("N")])]}, "reject", "double call")
+    # the doubly reached method sits below a method that is itself called twice on exclusive paths (a call-tree walk that
+    # visits the subtree of a method only once misses the second call path)
+    C["double_call_below_repeated_method_direct_second"] = ({"items": [base_m(), M("A", [call("M0")], iw=0, ow=0), T("T0", [If([call("A")], els=[call("A"), call("M0")])])]}, "reject", "double call")
+    C["double_call_below_repeated_method_direct_first"] = ({"items": [base_m(), M("A", [call("M0")], iw=0, ow=0), T("T0", [If([call("A"), call("M0")], els=[call("A")])])]}, "reject", "double call")
+    C["double_call_below_repeated_method_d3"] = ({"items": [base_m(), M("B", [call("M0")], iw=0, ow=0), M("A", [call("B")], iw=0, ow=0),
+                                                            T("T0", [Sw(1, [("0", [call("A")]), ("1", [call("A"), call("B")])])])]}, "reject", "double call")
+    C["ok_repeated_method_exclusive_everywhere"] = ({"items": [base_m(), M("A", [call("M0")], iw=0, ow=0), T("T0", [If([call("A")], [call("M0")], els=[call("A")])])]}, "accept", None)
     # accepted neighbours
     C["ok_if_else"] = ({"items": [base_m(), T("T0", [If([call("M0")], els=[call("M0")])])]}, "accept", None)
     C["ok_elif_chain"] = ({"items": [base_m(), T("T0", [If([call("M0")], [call("M0")], [call("M0")], els=[call("M0")])])]}, "accept", None)
